@@ -83,9 +83,24 @@ def pin_index(idx, n):
     return lo
 
 
+_DIMS_CACHE: Dict[Any, Any] = {}
+DIMS_NOW = None     # the dimensions of THIS worker's partition, evaluated natively before the analysis starts
+
+
+def _dims_of(dims):
+    """dims is a list, or the partition's dims function (then the value precomputed by the worker is used: evaluating it —
+    or even looking it up in a dict — on symbolic paths costs decisions and makes paths differ)."""
+    if type(dims) is list:
+        return dims
+    if DIMS_NOW is not None:
+        return DIMS_NOW
+    return dims(P)
+
+
 def decode_point(idx, dims):
     """One solver variable for a finite product space: idx (0 <= idx < prod(len(d) for d in dims)) is pinned by bisection and
     decoded in mixed radix into one choice per dimension.  N points cost N paths, and CONFIRMED means all N were enumerated."""
+    dims = _dims_of(dims)
     idx = pin_index(idx, space_size(dims))
     out = []
     for d in dims:
